@@ -12,8 +12,12 @@ pub trait NamingContext {
     /// Convert an event name to a TypeScript event listener function name
     /// Example: "user_login" -> "onUserLogin", "user-login" -> "onUserLogin"
     fn event_name_to_function(&self, event_name: &str) -> String {
-        // Normalize kebab-case to snake_case since serde_rename_rule expects snake_case
-        let normalized = event_name.replace('-', "_");
+        // Normalize every character that cannot be part of an identifier ('-', ':', '/', ...)
+        // to '_' since serde_rename_rule expects snake_case
+        let normalized: String = event_name
+            .chars()
+            .map(|c| if c.is_ascii_alphanumeric() { c } else { '_' })
+            .collect();
         format!(
             "on{}",
             self.apply_naming_convention(&normalized, RenameRule::PascalCase)
